@@ -31,6 +31,13 @@ TraceInit == l = 1 /\ traceId = 0 /\ passed = {} /\ lastStore = 0 /\ storing = 0
              /\ expect = [c \in Clients |-> 0] /\ viol = {} /\ judged = 0
              /\ mutable = FALSE /\ acqSeq = 0 /\ acq = [c \in Clients |-> 0] /\ lastStoreAcq = 0
 
+\* Known defect of the lock (not of the cache), in-memory backend only: a heart-beat write already on its way when the release
+\* removed the lock directory re-creates it (the backend creates missing parents) - a lock nobody holds and nobody refreshes, on
+\* which every later call fails with a lock error until CleanEntry.  The harness establishes it from the recorded backend calls
+\* (`zombie`); a call refused for that reason is named after its cause.
+LockErrors == {"stalelock", "locked", "timeout"}
+NotVisible(zombie, result) == IF zombie /\ result \in LockErrors THEN {"released-lock-recreated-by-late-heartbeat"} ELSE {"store-success-not-visible"}
+
 Sweep ==
     /\ Consume /\ Ev.op = "Sweep"
     /\ (traceId # 0 => Verdict)
@@ -38,9 +45,9 @@ Sweep ==
     /\ judged' = (IF Ev.match = "void" THEN 0 ELSE 1)
     /\ viol' = IF Ev.match = "void" THEN {}
                ELSE (IF Ev.fetch = "" /\ Ev.match \notin {"v1", "v2"} THEN {"fetch-installed-incomplete-tree"} ELSE {})
-                    \cup (IF Ev.store = "" /\ ~(Ev.fetch = "" /\ Ev.match = "v2") THEN {"store-success-not-visible"} ELSE {})
+                    \cup (IF Ev.store = "" /\ ~(Ev.fetch = "" /\ Ev.match = "v2") THEN NotVisible(Ev.zombie /\ Ev.backend = "mem" /\ Ev.cache = "mutable", Ev.fetch) ELSE {})
                     \* afterwards the earlier content (v1) is stored again, alone: a Store that reports success is what the next Fetch returns
-                    \cup (IF Ev.matchAgain # "void" /\ Ev.storeAgain = "" /\ ~(Ev.fetchAgain = "" /\ Ev.matchAgain = "v1") THEN {"store-success-not-visible"} ELSE {})
+                    \cup (IF Ev.matchAgain # "void" /\ Ev.storeAgain = "" /\ ~(Ev.fetchAgain = "" /\ Ev.matchAgain = "v1") THEN NotVisible(Ev.zombie /\ Ev.backend = "mem" /\ Ev.cache = "mutable", Ev.fetchAgain) ELSE {})
                     \cup (IF Ev.matchAgain # "void" /\ Ev.fetchAgain = "" /\ Ev.matchAgain \notin {"v1", "v2"} THEN {"fetch-installed-incomplete-tree"} ELSE {})
     /\ UNCHANGED <<passed, lastStore, storing, overlap, expect, lockVars>>
 
@@ -86,13 +93,13 @@ Fetched == /\ Consume /\ Ev.op = "Fetched"
            /\ judged' = judged + 1
            /\ Flag((IF Ev.result = "" /\ ~(\E v \in passed : Ev.match = V(v)) THEN {"fetch-installed-incomplete-tree"} ELSE {})
                    \cup (IF Ev.quiet /\ expect[Ev.c] # 0 /\ ~(Ev.result = "" /\ Ev.match = V(expect[Ev.c]))
-                         THEN {"store-success-not-visible"} ELSE {}))
+                         THEN NotVisible(Ev.zombie /\ mutable, Ev.result) ELSE {}))
            /\ UNCHANGED <<traceId, passed, lastStore, storing, overlap, expect, lockVars>>
 FinalFetch == /\ Consume /\ Ev.op = "FinalFetch"
               /\ judged' = judged + 1
               /\ Flag((IF Ev.result = "" /\ ~(\E v \in passed : Ev.match = V(v)) THEN {"fetch-installed-incomplete-tree"} ELSE {})
                       \cup (IF lastStore # 0 /\ storing = 0 /\ ~(Ev.result = "" /\ Ev.match = V(lastStore))
-                            THEN {"store-success-not-visible"} ELSE {}))
+                            THEN NotVisible(Ev.zombie /\ mutable, Ev.result) ELSE {}))
               /\ UNCHANGED <<traceId, passed, lastStore, storing, overlap, expect, lockVars>>
 
 TraceNext == Sweep \/ Begin \/ End \/ StoreBegin \/ LockAcquired \/ Stored \/ FetchBegin \/ Fetched \/ FinalFetch
